@@ -239,10 +239,14 @@ def small_median_cases(ctx):
     loc = [('exp(-x**2/(2*0.01**2))', lambda t: np.exp(-t * t / (2 * sg * sg)), lambda t: -t / (sg * sg) * math.exp(-t * t / (2 * sg * sg))),
            ('-exp(-x**2/(2*0.01**2))', lambda t: -np.exp(-t * t / (2 * sg * sg)), lambda t: t / (sg * sg) * math.exp(-t * t / (2 * sg * sg))),
            ('np.sin(200*x)', lambda t: np.sin(200 * t), lambda t: 200 * math.cos(200 * t)),
-           ('-np.sin(200*x)', lambda t: -np.sin(200 * t), lambda t: -200 * math.cos(200 * t))]
+           ('-np.sin(200*x)', lambda t: -np.sin(200 * t), lambda t: -200 * math.cos(200 * t)),
+           # periods commensurate with the dyadic default steps 2, 1, 1/2, ...: every difference over the large steps vanishes up to rounding
+           ('np.sin(8*np.pi*x)', lambda t: np.sin(8 * np.pi * t), lambda t: 8 * math.pi * math.cos(8 * math.pi * t)),
+           ('np.sin(16*np.pi*x)', lambda t: np.sin(16 * np.pi * t), lambda t: 16 * math.pi * math.cos(16 * math.pi * t)),
+           ('-np.sin(32*np.pi*x)', lambda t: -np.sin(32 * np.pi * t), lambda t: -32 * math.pi * math.cos(32 * math.pi * t))]
     for src, f, df in loc:
-        for x0 in ((0.01, -0.01) if 'exp' in src else (0.0,)):
-            for method in ('central', 'forward'):
+        for x0 in ((0.01, -0.01) if 'exp' in src else ((0.0, 0.3, -0.7) if 'pi' in src else (0.0,))):
+            for method in (('central', 'forward', 'backward') if 'pi' in src else ('central', 'forward')):
                 try:
                     with warnings.catch_warnings():
                         warnings.simplefilter('ignore')
